@@ -202,6 +202,13 @@ def run(ctx):
     ctx.validate_trace("GuidTrace", "GuidTrace.cfg", trace, T["traces"], "guid-shape", timeout=1800, level="shape")
     # 4. binding C: the publish paths of a real nsqd, end to end
     publish_paths(ctx)
+    # shutdowns requested while the generator refuses and publishers wait inside Topic.GenerateID (and other random
+    # two-lifetime histories): every id a topic handed out -- also during the shutdown -- belongs to one message
+    import corelib
+    rruns = corelib.drive(ctx, "restart", 12 if quick else 120, extra=["--variant", "genstall"])
+    corelib.ledger(ctx, "C12", rruns)
+    ctx.notes["restart_runs"] = len(rruns)
+    ctx.notes["restart_runs_generator_stalled"] = sum(1 for r in rruns if "generator-stalled" in r["scenario"])
     ctx.cov["rule"] = ("evaluations = real NewGUID calls (replayed TLC edges + full-speed concurrent calls) + ids handed "
                        "out to messages published through the real daemon; a generator case is distinct by (result class, "
                        "clock-vs-lastTs offset, sequence before/after), a publish command by (kind, size class, node-id "
